@@ -319,6 +319,9 @@ pub enum WOp {
     ChunkWrite(usize),
     /// out-of-range use of the safe UninitSlice API on chunk_mut(): must panic and write nothing
     UninitMisuse(u8),
+    /// put(Buf) with a source that under-reports remaining() (claims k, hands out a 16-byte chunk): contents are
+    /// unspecified afterwards, but no byte outside the target's writable region may be modified
+    BufUnder(usize),
 }
 
 fn src_shape(idx: usize, d: &[u8]) -> Spec {
@@ -390,7 +393,8 @@ fn apply(t: &mut Sink, m: &mut SM, op: &WOp, seq_no: usize, stats: &mut Stats) -
             (format!("{}(nbytes={})", p.name, nb), encode(&img8[8 - nb..], p.order))
         }
         WOp::Slice(k) => ("put_slice".into(), payload(*k, 0x21 + seq_no as u8 * 16)),
-        WOp::Bytes(v, k) => ("put_bytes".into(), vec![*v; *k]),
+        WOp::Bytes(v, k) => ("put_bytes".into(), if *k > 4096 { vec![] } else { vec![*v; *k] }),
+        WOp::BufUnder(_) => ("put(under-reporting Buf)".into(), vec![]),
         WOp::Buf(_, k) => ("put(Buf)".into(), payload(*k, 0x41 + seq_no as u8 * 16)),
         WOp::WriterWrite(k) => ("Writer::write".into(), payload(*k, 0x61 + seq_no as u8 * 16)),
         WOp::ChunkWrite(k) => ("chunk_mut+advance_mut".into(), payload((*k).max(1), 0x81 + seq_no as u8 * 16)),
@@ -472,8 +476,54 @@ fn apply(t: &mut Sink, m: &mut SM, op: &WOp, seq_no: usize, stats: &mut Stats) -
         }
         return Ok(false);
     }
+    if let WOp::BufUnder(claim) = op {
+        struct Under {
+            data: [u8; 16],
+            pos: usize,
+            claim: usize,
+            fuel: std::cell::Cell<u32>,
+        }
+        impl Buf for Under {
+            fn remaining(&self) -> usize {
+                let f = self.fuel.get();
+                self.fuel.set(f + 1);
+                if f > 200 {
+                    panic!("under-reporting source: out of fuel");
+                }
+                (16 - self.pos).min(self.claim)
+            }
+            fn chunk(&self) -> &[u8] {
+                &self.data[self.pos..]
+            }
+            fn advance(&mut self, cnt: usize) {
+                self.pos = (self.pos + cnt).min(16);
+            }
+        }
+        let mut src = Under { data: [0x6b; 16], pos: 0, claim: *claim, fuel: std::cell::Cell::new(0) };
+        let _ = catch_unwind(AssertUnwindSafe(|| t.put(&mut src)));
+        let mut rs = vec![];
+        regions(m, &mut rs);
+        let a = arena();
+        for i in 0..ARENA {
+            let inside = rs.iter().any(|(o, c, _)| i >= *o && i < *o + *c);
+            if !inside && a[i] != GUARD {
+                return Err(f11("put-under:outside", format!("put(Buf) with a source that claims {} bytes but hands out a 16-byte chunk modified a byte outside every writable region (arena offset {})", claim, i)));
+            }
+        }
+        if let Some(v) = oracle::check_canaries() {
+            return Err(f11("put-under:heap", format!("put(Buf) with a source that claims {} bytes but hands out a 16-byte chunk: {}", claim, v)));
+        }
+        return Ok(false);
+    }
+    let huge = matches!(op, WOp::Bytes(_, k) if *k > 4096);
+    if let WOp::Bytes(_, k) = op {
+        if huge && *k <= m.rem() {
+            // a growable target that really has room for this count: not executed (it would start filling memory)
+            return Ok(false);
+        }
+    }
     let rem = m.rem();
-    let fits = bytes.len() <= rem;
+    let fits = !huge && bytes.len() <= rem;
     if let SM::Chain(a, _) = m {
         if a.rem() > 0 && a.rem() < bytes.len() && fits {
             stats.straddles += 1;
@@ -522,7 +572,7 @@ fn apply(t: &mut Sink, m: &mut SM, op: &WOp, seq_no: usize, stats: &mut Stats) -
                 Err(_) => return Err(f12("writer-panic", format!("Writer::write({} bytes) with room for {} panicked", bytes.len(), rem))),
             }
         }
-        WOp::SetLimit(_) | WOp::ChunkWrite(_) | WOp::UninitMisuse(_) => unreachable!(),
+        WOp::SetLimit(_) | WOp::ChunkWrite(_) | WOp::UninitMisuse(_) | WOp::BufUnder(_) => unreachable!(),
     };
     if !fits {
         stats.expected_panics += 1;
@@ -687,6 +737,17 @@ fn sized_ops(rem: usize, first: usize, with_writer: bool, lim: Option<usize>, le
         for mode in 0..4u8 {
             v.push(WOp::UninitMisuse(mode));
         }
+    }
+    // counts that cannot fit anywhere: must panic, nothing outside the target may change
+    // (only counts that exceed remaining_mut(): a growable target whose remaining_mut() is usize::MAX may
+    // legitimately start filling memory)
+    for c in [usize::MAX, usize::MAX - 7, (isize::MAX as usize) + 1] {
+        if c > rem {
+            v.push(WOp::Bytes(0xB7, c));
+        }
+    }
+    for claim in [0usize, 1, 4, 9] {
+        v.push(WOp::BufUnder(claim));
     }
     if let Some(l) = lim {
         let mut ls = vec![0usize, 1, l.saturating_sub(1), l.saturating_add(1), usize::MAX];
